@@ -49,6 +49,10 @@ CLAUSES = {
     "save": "(C02 closure on the re-saved irregular package, except references already dangling in the input)",
 }
 
+class _Done(Exception):
+    """early, successful end of a case"""
+
+
 _deck_cache: dict[str, bytes] = {}
 
 
@@ -261,6 +265,30 @@ def expectation(data: bytes):
     return ("open", pkg)
 
 
+def _slide_ids_in_order(ref: refpkg.RefPackage):
+    """Slide ids in presentation order according to the independent reader (None if not determinable); slides whose
+    relationship dangles are not part of the presentation any more."""
+    mp = ref.main_part()
+    try:
+        root = refpkg.parse(ref.members[mp])
+    except Exception:  # noqa: BLE001
+        return None
+    lst = root.find("{http://schemas.openxmlformats.org/presentationml/2006/main}sldIdLst")
+    if lst is None:
+        return []
+    rels = {r.rid: r for r in ref.rels_of(mp) or []}
+    out = []
+    for el in lst:
+        rid = el.get("{%s}id" % refpkg.NS_R)
+        r = rels.get(rid)
+        if r is None or r.target not in ref.members:
+            return None  # a slide entry whose part is gone: what .slides does with it is not specified
+        if ref.content_type(r.target) != "application/vnd.openxmlformats-officedocument.presentationml.slide+xml":
+            return None  # a slide part declared with an unknown content type loads as a generic part
+        out.append(int(el.get("id")))
+    return out
+
+
 def compare_loaded(ref: refpkg.RefPackage, prs, report):
     pkg = prs.part.package
     loaded = {}
@@ -395,8 +423,46 @@ def execute(trace: dict, known, collect_log=True) -> dict:
                     report("save|closure|%s" % rule, detail, CLAUSES["save"])
                 if set(out.part_names()) != set(ref.reachable):
                     report("save|parts-differ", "%s" % sorted(set(out.part_names()) ^ set(ref.reachable))[:6], CLAUSES["preserve"])
+                # second stage: the irregular deck keeps working after it was opened - first access of the slide
+                # collection (which renames out-of-order slide parts), then another save, must still give a closed
+                # package whose slides re-open in presentation order
+                want_ids = _slide_ids_in_order(ref)
+                if want_ids is None:
+                    # a slide entry whose part is gone (dangling relationship): what .slides does is not specified
+                    res["stats"].hit("c16_compared")
+                    res["stats"].hit("c16_second_stage_skipped_dangling_slide")
+                    raise _Done()
+                try:
+                    got_ids = [s_.slide_id for s_ in prs.slides]
+                except Exception as e:  # noqa: BLE001
+                    import traceback
+                    report("preserve|slides-collection-raises|%s" % type(e).__name__, traceback.format_exc()[-1200:], CLAUSES["preserve"])
+                    raise _Done()
+                if got_ids != want_ids:
+                    report("preserve|slide-order-after-open", "want=%r got=%r" % (want_ids, got_ids), CLAUSES["preserve"])
+                s2 = SimSink("seekable")
+                try:
+                    prs.save(s2)
+                except Exception as e:  # noqa: BLE001
+                    import traceback
+                    report("save|second-save-raises|%s" % type(e).__name__, traceback.format_exc()[-1500:], CLAUSES["save"])
+                out2 = refpkg.RefPackage.from_bytes(s2.image())
+                tol2 = {(n, a, v) for n in out2.members for (a, v) in tol_av}
+                for rule, detail in refpkg.closure_problems(out2, tol2):
+                    report("save|closure-after-slides-access|%s" % rule, detail, CLAUSES["save"])
+                try:
+                    prs3 = pptx.Presentation(SimSource(s2.image()))
+                    ids3 = [s_.slide_id for s_ in prs3.slides]
+                except Exception as e:  # noqa: BLE001
+                    import traceback
+                    report("save|re-open-after-second-save-raises|%s" % type(e).__name__, traceback.format_exc()[-1500:], CLAUSES["save"])
+                    ids3 = got_ids
+                if ids3 != got_ids:
+                    report("preserve|slide-order-after-second-save", "in memory=%r re-opened=%r" % (got_ids, ids3), CLAUSES["preserve"])
                 res["stats"].hit("c16_compared")
         res["states"] = [jdump([trace.get("deck"), [x["fault"] for x in trace.get("faults", [])], form, exp[0]])]
+    except _Done:
+        res["states"] = [jdump([trace.get("deck"), [x["fault"] for x in trace.get("faults", [])], trace.get("form"), "open"])]
     except Violation as v:
         res["violation"] = {"sig": v.sig, "detail": v.detail[:4000], "clause": v.clause, "event_index": 0}
         log.append({"violation": v.sig})
